@@ -1071,6 +1071,8 @@ def make_segment(data, mode, encoding=None):
         # Note: len(segment.data)! segment.data_length = len(segment.data) / 2!!
         for i in range(0, segment_length, 2):
             code = (segment_data[i] << 8) | segment_data[i + 1]
+            if not 0xa1 <= segment_data[i + 1] <= 0xfe:
+                raise ValueError(f'Invalid Hanzi bytes: {code}')
             if 0xa1a1 <= code <= 0xaafe:
                 # For characters with GB2312 values from A1A1HEX to AAFEHEX:
                 # a) Subtract A1A1HEX from GB2312 value;
@@ -1089,6 +1091,8 @@ def make_segment(data, mode, encoding=None):
         # ISO/IEC 18004:2015(E) -- 7.4.6 Kanji mode (page 29)
         for i in range(0, segment_length, 2):
             code = (segment_data[i] << 8) | segment_data[i + 1]
+            if not is_kanji(segment_data[i:i + 2]):
+                raise ValueError(f'Invalid Kanji bytes: {code}')
             if 0x8140 <= code <= 0x9ffc:
                 # 1. a) For characters with Shift JIS values from 8140HEX to 9FFCHEX:
                 # Subtract 8140HEX from Shift JIS value;
@@ -1333,6 +1337,9 @@ def is_kanji(data):
     for i in range(0, data_len, 2):
         code = (next(data_iter) << 8) | next(data_iter)
         if not (0x8140 <= code <= 0x9ffc or 0xe040 <= code <= 0xebbf):
+            return False
+        # The trail byte of a Shift JIS double-byte character is 0x40 .. 0xFC (without 0x7F)
+        if not 0x40 <= code & 0xff <= 0xfc or code & 0xff == 0x7f:
             return False
     return True
 
